@@ -493,6 +493,19 @@ def tlc_simulate(spec, cfg_text, num, depth, seed, timeout=600):
 def replay(path):
     """re-execute the steps of a replay file on the current tree and validate the fresh trace"""
     rep = json.load(open(path))
+    if rep.get("kind") == "table":
+        build_harness()
+        d = os.path.join(WORK, "replay")
+        cp, op = os.path.join(d, "t.cases"), os.path.join(d, "t.out")
+        c = rep["case"]
+        with open(cp, "w") as f:
+            f.write(json.dumps({"kind": c["kind"], "in": c["in"], "out": c["expected"], "kf": {},
+                                "server": c.get("server", [])}) + "\n")
+        sh([BIN, "caps", cp, op, "3"], timeout=120)
+        print(open(op).read()[:4000])
+        bad = json.loads(open(op).read().splitlines()[-1])["bad"]
+        print("replay:", "row still FAILS" if bad else "row passes")
+        return 1 if bad else 0
     if rep.get("kind") == "mt":
         build_harness()
         d = os.path.join(WORK, "replay")
